@@ -86,3 +86,31 @@ def lemma_zero_row(m):
 def lemma_field():
     """one-line facts of real arithmetic (congruence of division / of the weight formula): requires => ensures, no ghost steps"""
     return 0
+
+
+def lemma_gram_transform(k):
+    """rows of [1, X'] = rows of [1, X] times T = diag(1, A)  =>  Gram sums G' = T^T G T, Y' = T^T Y   (induction over the rows)"""
+    j = 0
+    while j < k:
+        inst(j)
+        j = j + 1
+    return j
+
+
+def lemma_select_unique(k1):
+    """two masks with the same contents: their order-preserving enumerations of the True entries agree (induction over the selected rows;
+    the last instance, at j = k1, excludes a longer second enumeration)"""
+    j = 0
+    while j < k1:
+        inst(j)
+        j = j + 1
+    inst(j)
+    return j
+
+
+def lemma_affine_reexpression(sample, model, sample2, model2, summary_names, parameter_names):
+    """two calls of the real adjust_posterior (bound in the environment to the instrumented function read from the tree): on the summaries as
+    given and on an invertible affine re-expression of them (simulated and observed alike)"""
+    r1 = adjust_posterior(sample, model, summary_names, parameter_names)
+    r2 = adjust_posterior(sample2, model2, summary_names, parameter_names)
+    return (r1, r2)
